@@ -41,7 +41,11 @@ type c05cb struct {
 	started bool // registration call was made
 	reenter bool // when it runs it registers a further callback on the same future
 	nested  *c05cb
+	panics  bool // injected fault: the callback panics (it runs on an inline executor, i.e. on the completer's stack)
 }
+
+// c05Injected is the panic value of an injected callback crash.
+type c05Injected struct{}
 
 var c05KindNames = [...]string{"OnComplete", "OnSuccess", "OnFailure", "Foreach"}
 
@@ -67,6 +71,10 @@ func execC05(r *sim.Run) {
 	// promise makes of it, every observer - callbacks registered before, during and after, Value() - sees the same.
 	// (OnFailure is left out of these runs: unpacking such a failure panics inside the library's own adaptor.)
 	nilErrRun := r.Bool(1, 10, "nilErrRun")
+	// injected fault: one callback registered before completion crashes, on an inline executor - on the stack of the
+	// completing call. The completer recovers. Whatever the library does about the other listeners, no callback - the
+	// crashing one included - may ever run a second time (the lower bound "at least once" is not demanded in these runs).
+	panicRun := !nilErrRun && r.Bool(1, 12, "callbackPanics")
 	p := fp.NewPromise[int]()
 	fut := p.Future()
 	ex := &execSet{run: r}
@@ -79,6 +87,10 @@ func execC05(r *sim.Run) {
 			cb.got = s
 			if !p.IsCompleted() {
 				cb.early = true
+			}
+			if cb.panics {
+				r.Fault("callback-panics-on-the-completer-stack")
+				panic(c05Injected{})
 			}
 			if cb.reenter && cb.nested != nil && !cb.nested.started {
 				// a callback that registers another callback while callbacks are being dispatched
@@ -130,8 +142,16 @@ func execC05(r *sim.Run) {
 		k0 = 14 + r.Choose(60, "k0many")
 		r.Fault("long-listener-list")
 	}
+	panicIdx := -1
+	if panicRun && k0 > 0 {
+		panicIdx = r.Choose(k0, "panicIdx")
+	}
 	for i := 0; i < k0; i++ {
-		register(newCb("pre"))
+		cb := newCb("pre")
+		if i == panicIdx {
+			cb.panics, cb.exec, cb.kind = true, exInline, 0
+		}
+		register(cb)
 	}
 	r.MixFingerprint(uint64(k0))
 
@@ -174,6 +194,17 @@ func execC05(r *sim.Run) {
 			r.Fault("completion-with-a-nil-error-failure")
 		}
 		r.Go(fmt.Sprintf("comp%d", i), func(t *sim.Task) {
+			defer func() {
+				if e := recover(); e != nil {
+					if _, ok := e.(c05Injected); !ok {
+						panic(e)
+					}
+					// the completing call was cut short by the crashing listener: it won if the promise holds its result
+					r.Gate("ret")
+					c.ret = p.IsCompleted() && (c.want == c05AsStored || tryStr(p.Value()) == c.want)
+					c.done = true
+				}
+			}()
 			switch c.kind {
 			case 0:
 				c.ret = p.Success(100 + i)
@@ -357,6 +388,19 @@ func c05Check(r *sim.Run, p fp.Promise[int], cbs []*c05cb, comps []*c05comp, obs
 		}
 		if cb.kind == 2 && succ {
 			want = 0
+		}
+		relaxed := false
+		for _, x := range cbs {
+			if x.panics && x.count > 0 {
+				relaxed = true // a listener crashed during the notification: only "never twice" is demanded
+			}
+		}
+		if relaxed && cb.count <= want {
+			if cb.count == 1 && cb.got != winner {
+				r.Violate("callback-value", "%s: callback %d received %s, winning result is %s", phase, cb.id, cb.got, winner)
+				return
+			}
+			continue
 		}
 		if cb.count != want {
 			r.Violate("callback-count", "%s: callback %d (%s by %s, executor %s) ran %d time(s), want %d (result %s)", phase, cb.id, c05KindNames[cb.kind], cb.who, exNames[cb.exec], cb.count, want, winner)
